@@ -1,6 +1,6 @@
 (* C12 — formatter layout guarantees. *)
 From AHP Require Import Model.Base Model.Str Model.Attr Model.Dom Model.Serial Model.Parser Model.Formatter Gen.Tables
-     Proofs.DomProofs Proofs.ParserProofs Proofs.FormatterProofs.
+     Proofs.DomProofs Proofs.ParserProofs Proofs.FormatterProofs Proofs.FormatterIdemProofs.
 
 (* the indent level and the preformatted depth are, at every point of every run, the number of open non-wrapper elements and
    the number of open pre / code elements (implicit closes and the invisible wrapper included) *)
@@ -29,6 +29,18 @@ Theorem C12_slim_start_tag : forall c h, cslim c = true ->
 Proof. exact slim_start_tag. Qed.
 Theorem C12_normal_is_plain_serialisation : forall c, cslim c = false -> forall t, fouter c t = outer_html t.
 Proof. exact fouter_normal. Qed.
+
+(* the rewriting a formatter applies to a text run outside pre / code (tabs to spaces, edge line breaks dropped, edge white space
+   collapsed to one space) is idempotent for every text: a text run of formatter output is left as it is by the next pass, which
+   is the text half of "mini output is a fixed point" (the other half, no indentation, is C12_mini_no_indent) *)
+Theorem C12_text_rewriting_idempotent : forall d, fmt_data (fmt_data d) = fmt_data d.
+Proof. exact fmt_data_idempotent. Qed.
+Theorem C12_text_rewriting_canonical : forall d, Canon (fmt_data d).
+Proof. exact fmt_canon. Qed.
+Example C12_text_rewriting_nontrivial :
+  let tab := String (ascii_of_nat 9) "" in let nl := String (ascii_of_nat 10) "" in
+  fmt_data (nl +++ tab +++ "  a b" +++ tab +++ " " +++ nl) = " a b " /\ fmt_data " a b " = " a b ".
+Proof. vm_compute. split; reflexivity. Qed.
 
 (* the known finding, exhibited on the faithful model: every pretty pass adds a line to <style> content *)
 Example C12_stable_refuted :
